@@ -10,6 +10,9 @@ CLAIMS = {
  "C08": dict(ref="§4 C08",
    text="Proof by induction over the representation invariant WF (valid integer ids, coherent demoted cache, no shared set objects): for an arbitrary well-formed region state with fully symbolic pixel sets, every public Region operation (add_pixels, get_demoted, _renorm, union incl. finer/coarser operands, without, intersect, symmetric_difference, get_area, __init__) preserves WF, has its set-algebra postcondition on the deepest-level view, leaves the other operand's view unchanged, and normalising operations leave no patch of sky represented twice. Set-iteration loops are cut by functional invariants over a ghost done-set. The depth is enumerated (1..3 quick, 1..4 thorough), contents are unbounded.",
    note="bounded in depth (maxdepth enumerated), unbounded in content; python set semantics, healpy returns valid ids, pickle identity assumed; get_area = card(V)*A(D) not decided deductively (native cross-check only)"),
+ "C09": dict(ref="§4 C09",
+   text="Conditional proof (relative to healpy's geometric guarantees): insert side and query side use the same, correct conversion (ra, dec) -> (theta, phi) = (pi/2 - dec, ra) -> vector / NESTED pixel: radec2sky, sky2ang (input unchanged), sky2vec, vec2sky (inverse, degrees flag); sky_within answers, per position, finite(ra,dec) AND membership of its own pixel at nside 2**maxdepth nest=True, with degin converting both columns, scalar and vector (symbolic length, NaN flags) forms, view unchanged; add_circles issues exactly one inclusive nested disc query per circle with the right centre vector/radius at depth clamped to maxdepth and the view becomes the union with the descendants of the returned pixels (then normalised); add_poly likewise, vertices in order, fewer than 3 vertices rejected.",
+   note="healpy query_disc/query_polygon coverage and 3-pixel margin, ang2vec/vec2ang/ang2pix consistency assumed (the cover/margin/area clauses themselves are only cross-checked natively); number of vector-form circles enumerated (1, 2); depth enumerated"),
  "C10": dict(ref="§4 C10",
    text="Proof for every image shape, WCS, region and negate flag: mask_plane blanks pixel (row r, col c) iff it was blank or its centre W(c+1, r+1) is outside the region (inside with negate) -- via the loop invariant on the (col,row) index table, the origin argument of wcs_pix2world, row-major reshape and boolean-mask assignment; other pixel values, the region and the identity of the array are unchanged; negate is the complement. mask_file masks every plane of a cube with the same wcs/region/negate and writes the result; mask_table keeps row k iff not inside(k) (inside with negate) using the named columns in (ra, dec) order with degin=True.",
    note="astropy WCS pix2world contract (origin semantics), Region.sky_within contract (C08/C09), numpy indexing/reshape, astropy Table row selection assumed; floats as reals"),
